@@ -437,3 +437,11 @@ class SubSession:
 
     def undecided_part(self, *a):
         return None
+
+    def run(self, mod):
+        """run another property's check as a sub-session.  Obligations it registers before anything goes wrong are kept; a crash in the parts that are not registered
+        here (its bounded stand-ins, engine self-checks) on the current source is that property's business, not the parent's: noted, never a checker error of the parent"""
+        try:
+            mod.run(self)
+        except Exception as e:  # noqa: BLE001
+            self._p.notes.setdefault("sub_sessions_interrupted", []).append("%s: %s: %s" % (getattr(mod, "__name__", mod), type(e).__name__, str(e)[:200]))
